@@ -212,9 +212,10 @@ struct MessImpl* MessageQueueImpl__find_matching_message(struct MessageQueueImpl
 void MessImpl__finish(struct MessImpl* self)
     __CPROVER_requires(IS_MESS(self) && WF_MESS(self) && WF_Q && WF_ACTORS(ACAP + 1) && vf_exc == 0 && g_answered == 0)
     __CPROVER_requires((self->queue_ == NULL && NOT_IN_Q(self)) || (self->queue_ == &g_q && IN_Q(self)))
-    __CPROVER_assigns(vf_exc, ACT(self).state_, ACT(self).piface_, ACT(self).simcalls_.h, ACT(self).simcalls_.n, self->queue_,
-                      g_q.queue_.n, __CPROVER_object_whole(g_qd), g_slot, ACTORS_FRAME, g_answered, g_answered_actor,
-                      g_fired)
+    /* the queue is only touched when the message still sits in one (conditional targets, evaluated at entry) */
+    __CPROVER_assigns(ACT(self).state_, ACT(self).piface_, ACT(self).simcalls_.h, ACT(self).simcalls_.n, g_slot,
+                      ACTORS_FRAME, g_answered, g_answered_actor, g_fired;
+                      self->queue_ != NULL: vf_exc, self->queue_, g_q.queue_.n, __CPROVER_object_whole(g_qd))
     __CPROVER_ensures(vf_exc == 0)
     __CPROVER_ensures(ACT(self).state_ == (__CPROVER_old(ACT(self).state_) == State__RUNNING
                                                ? State__DONE
@@ -387,7 +388,11 @@ void harness(void)
 void harness(void)
 {
   setup();
+#ifdef DBG_FIXED
+  MessImpl__finish(&g_mess[2]);
+#else
   MessImpl__finish(pick_mess());
+#endif
   VF_CANARY_POINT;
 }
 #endif
